@@ -66,7 +66,7 @@ def check(case: Dict[str, Any]) -> CaseInfo:
         df = res[rd["rank"]]
         require(list(df.columns) == ["correlation", "cpu_duration", "gpu_duration", "launch_delay"], "columns", lambda: str(list(df.columns)))
         require(not df.isna().any().any(), "rows:nan", lambda: df.to_string())
-        got = Counter((int(a), int(b), int(c), int(e)) for a, b, c, e in df.itertuples(index=False))
+        got = Counter((int(a), float(b), float(c), float(e)) for a, b, c, e in df.itertuples(index=False))
         require(got == want, "rows:multiset",
                 lambda: f"rank {rd['rank']} memory={p['memory']}: missing {sorted((want - got).elements())} extra {sorted((got - want).elements())}")
         rows = complete_rows(rd["events"])
@@ -101,7 +101,7 @@ def check(case: Dict[str, Any]) -> CaseInfo:
 
 @st.composite
 def c15_case(draw):
-    o = Opts(fractional_stamps=True, steps=[0, 1, 2, 3], launch_names=vocab.DOC_KERNEL_LAUNCHES, w_launch=7, w_sync=2, max_top=5, early_kernels=True)
+    o = Opts(fractional_stamps=True, unrounded=True, steps=[0, 1, 2, 3], launch_names=vocab.DOC_KERNEL_LAUNCHES, w_launch=7, w_sync=2, max_top=5, early_kernels=True)
     case = draw(sim_case(o, max_ranks=3))
     all_ranks = [r["rank"] for r in case["ranks"]]
     mode = draw(st.sampled_from(["none", "empty", "subset", "subset", "all"] if 0 in all_ranks else ["subset", "all", "subset"]))  # None / [] mean rank 0
